@@ -134,6 +134,7 @@ type Config struct {
 	MemLimitMB       int
 	SubprocBudget    int           // minimisation attempts for violations that need a fresh process each (default 40)
 	SelfArgs         []string      // arguments every child invocation needs first (test binaries: -test.run=...)
+	RaceLog          bool          // children get GORACE=log_path=$VERIF_WORKDIR/race exitcode=0
 	WatchdogTimeout  time.Duration // in-process liveness bound per case: dump stacks, exit 3 (0 = CaseTimeout/2)
 }
 
@@ -180,6 +181,17 @@ func Tier() string {
 	}
 	return *fTier
 }
+
+var endProcess bool
+
+// EndProcessAfterCase: the world's process state is unusable after this case
+// (e.g. parked goroutines that can never be resumed).
+func EndProcessAfterCase() { endProcess = true }
+
+var troubleNotes []string
+
+// Trouble records a harness problem; the run ends with exit 2 unless a violation is found.
+func Trouble(s string) { troubleNotes = append(troubleNotes, s) }
 
 // SetHangInfo lets a world say what it was working on, for watchdog dumps.
 func SetHangInfo(f func() string) {
@@ -305,6 +317,10 @@ func workerMain(w World, cfg Config) int {
 		t := tape.New(cs)
 		v := w.RunCase(t, st)
 		n++
+		for _, tn := range troubleNotes {
+			emit(out, caseMsg{T: "trouble", Case: i, Seed: cs, Note: tn})
+		}
+		troubleNotes = nil
 		if v != nil && !seenSig[v.Sig] {
 			seenSig[v.Sig] = true
 			rec := t.Recorded()
@@ -332,6 +348,9 @@ func workerMain(w World, cfg Config) int {
 				}
 			}
 			emit(out, caseMsg{T: "viol", Case: i, Seed: cs, Viol: v, Tape: rec})
+		}
+		if endProcess {
+			break
 		}
 	}
 	st.finish()
@@ -443,6 +462,9 @@ func runOneSubproc(rec []uint32, cfg Config, timeout time.Duration) (sig, detail
 	cmd := exec.Command(self(), append(append([]string{}, cfg.SelfArgs...), "-mode=one", "-file="+tf, fmt.Sprintf("-wd=%d", wdSeconds(timeout)))...)
 	cmd.Env = append(os.Environ(), cfg.ExtraWorkerEnv...)
 	cmd.Env = append(cmd.Env, "VERIF_WORKDIR="+dir, "VERIF_WORKER_TIER="+Tier())
+	if cfg.RaceLog {
+		cmd.Env = append(cmd.Env, "GORACE=log_path="+dir+"/race exitcode=0 halt_on_error=0")
+	}
 	var stdout, stderr strings.Builder
 	cmd.Stdout = &stdout
 	cmd.Stderr = &stderr
@@ -926,6 +948,9 @@ func runWorker(j job, cfg Config, workdir string) (fs []found, trouble []string,
 		cmd := exec.Command(self(), append(append([]string{}, cfg.SelfArgs...), args...)...)
 		cmd.Env = append(os.Environ(), cfg.ExtraWorkerEnv...)
 		cmd.Env = append(cmd.Env, "VERIF_WORKDIR="+dir, "VERIF_WORKER_TIER="+Tier())
+		if cfg.RaceLog {
+			cmd.Env = append(cmd.Env, "GORACE=log_path="+dir+"/race exitcode=0 halt_on_error=0")
+		}
 		stderrPath := filepath.Join(dir, "stderr")
 		ef, _ := os.Create(stderrPath)
 		cmd.Stderr = ef
@@ -989,6 +1014,8 @@ func runWorker(j job, cfg Config, workdir string) (fs []found, trouble []string,
 				mu.Unlock()
 			case "viol":
 				fs = append(fs, found{v: *m.Viol, seed: m.Seed, tape: m.Tape})
+			case "trouble":
+				trouble = append(trouble, fmt.Sprintf("case %d (seed %d): %s", m.Case, m.Seed, m.Note))
 			case "flaky":
 				trouble = append(trouble, fmt.Sprintf("case %d (seed %d): %s: %s", m.Case, m.Seed, m.Note, m.Viol.Sig))
 			case "done":
@@ -1075,6 +1102,9 @@ func confirmSeed(cs uint64, cfg Config, timeout time.Duration) (sig, detail stri
 	defer os.RemoveAll(dir)
 	cmd.Env = append(os.Environ(), cfg.ExtraWorkerEnv...)
 	cmd.Env = append(cmd.Env, "VERIF_WORKDIR="+dir, "VERIF_WORKER_TIER="+Tier())
+	if cfg.RaceLog {
+		cmd.Env = append(cmd.Env, "GORACE=log_path="+dir+"/race exitcode=0 halt_on_error=0")
+	}
 	var stdout, stderr strings.Builder
 	cmd.Stdout, cmd.Stderr = &stdout, &stderr
 	cmd.SysProcAttr = &syscall.SysProcAttr{Setpgid: true}
